@@ -289,7 +289,7 @@ func Replay(t *testing.T, entries map[string]func()) {
 	if budget >= 0 {
 		var ms runtime.MemStats
 		runtime.ReadMemStats(&ms)
-		if d := ms.TotalAlloc - alloc0; int64(d) > budget+(1<<20) {
+		if d := ms.TotalAlloc - alloc0; int64(d) > budget+(32<<10) {
 			if failed == "" || strings.Contains(failMsg, "makeslice") {
 				failed = "alloc-bounded"
 				failMsg = fmt.Sprintf("allocated %d bytes, budget %d", d, budget)
